@@ -13,7 +13,10 @@ reference tables), which are folded.
   the term is described abstractly (`_Escaper`: which characters it emits as plain tokens, which as backslash pairs); two
   are known - repr() pinned to the single-quote style and the unicode_escape codec over a latin-1 decoding - and every
   replacement applied on top is judged against that token structure (does a match always coincide with a token the
-  escaper emitted, or can it start in the middle of an escaped backslash?).
+  escaper emitted, or can it start in the middle of an escaped backslash?).  A test the encoder makes on the characters of its argument
+  with a per-character predicate of CPython (`value.isascii()`, `.isprintable()`, `.isalnum()` ...) or `<constant> in value` is a data
+  fork whose outcome is kept as a fact of the path; a path on which the value skips the escaper (a "fast path" for plain text) is judged by
+  these facts in the abstract domain "ASCII byte values every byte of the value may take": they must exclude the backslash byte.
 * decoder: the body of the decoding loop is walked ONCE, with the characters the iterator delivers symbolic.  The only
   thing learnt about a character is the outcome of the comparisons the decoder itself makes with its own literals
   (`c == "x"`, `c in "nrt"`, `c in TABLE`, `TABLE.get(c)`, `TABLE[c]`, `match c: case "n"`, `ord(c) == 0x6E`): such a
@@ -55,7 +58,12 @@ R1 (encoder)  1 (AST, inlined helpers), 2 (paths pruned by the named assumption 
               pin constant, `re.sub` patterns via their parsed syntax tree),
               4 (finite abstract domain for the escaper's output: per character "plain token / backslash pair / hex escape";
               a replacement backslash + X is checked against it: X plain => a match can start at the second half of an
-              escaped backslash => violated unless the replacement itself starts with a backslash (undecided)).
+              escaped backslash => violated unless the replacement itself starts with a backslash (undecided));
+              2 + 4 (a path on which the value reaches the literal without an escaper - as it is, or through an identity decoding
+              ascii / latin-1 / utf-8: the facts of the path - outcomes of the encoder's own per-character predicates and `<constant> in
+              value` tests, data forks - are evaluated over the interval-set domain "ASCII byte values a byte of the value may take"
+              plus a witness composed of the constants the facts name: the backslash byte admitted => violated, excluded =>
+              discharged, otherwise undecided; likewise the double quote for a path without the quote replacement).
               Lemmas: L1 repr(bytes) escapes byte-wise and picks the double-quote delimiter only for a value that
               contains ' and no " - a concatenated b'"' pins the single-quote style, and the text of the value starts
               2 + len(escaped prefix constant) characters in and ends 1 + len(escaped suffix constant) before the end;
@@ -67,7 +75,11 @@ R1 (encoder)  1 (AST, inlined helpers), 2 (paths pruned by the named assumption 
               identity; decoding the value as ascii / utf-8 instead of latin-1 raises for bytes >= 0x80;
               L2b a backslash is always the first character of a token and the backslash byte is two backslashes: if X is
               a plain token, the bytes (0x5c, X) give backslash backslash X and str.replace(backslash + X, R) matches at the
-              second backslash - the first one then pairs with R[0]; if X is always escaped, every match is that pair.
+              second backslash - the first one then pairs with R[0]; if X is always escaped, every match is that pair;
+              L13 (reference table) `s.<pred>()` for isascii / isprintable / isalnum / isalpha / isdigit / isdecimal / isnumeric holds iff
+              every character of s satisfies the predicate (and s is not empty, except isascii / isprintable); the ASCII characters
+              that do are 0x00-0x7f / 0x20-0x7e / 0-9A-Za-z / A-Za-z / 0-9; bytes.<pred> knows ASCII only.  The backslash 0x5c is
+              printable ASCII and neither a letter nor a digit.
 R2 (decoder)  1, 2 (has_next() / data-dependent tests fork the path; tests on unknown values are followed both ways and
               mark the path as guessed -> undecided, not violated), 3 (ONE symbolic iteration: event traces with appended
               terms ord(c), int(<digits at offsets>, base), constants), 4 (cursor offset / availability typestate: a read
@@ -87,6 +99,11 @@ R2 (decoder)  1, 2 (has_next() / data-dependent tests fork the path; tests on un
               equals `+` there (disjoint bits); L10 int(s, 16) does not depend on the case of s, str.lower/upper/casefold map
               a hex digit to the hex digit of the same value; L11 index()/find() of a one-character string in a sequence is the
               position of its first occurrence (ValueError / -1 when absent).
+              Bytes appended through a text codec (`chr(<code>).encode(C)`, `<character>.encode(C)`, `bytes(<character>, C)`): 3 (the term
+              encchr(<code>, C) is ONE appended value), judged by lemma L12: chr(n).encode('latin-1') is the single byte n for 0 <= n <= 255
+              (raises above); chr(n).encode('utf-8' / 'ascii') is the single byte n only for n < 0x80 (two to four bytes / an exception
+              from 0x80 on).  The low pair of an escape and the code of a character both range over 0..255, so latin-1 over such a code
+              is that byte and utf-8 / ascii are not (other codecs: undecided); ord(chr(n)) == n (L3).
               Quote stripping and the `& 0xFF` mask: 1, 3 (definitions inlined, slice/strip layers compared structurally).
 R3            5 (the escape letters CPython's repr(bytes) and the encoder can emit - a reference vocabulary - looked up
               in the case split of R2).
@@ -1452,12 +1469,17 @@ def r1(ctx):
     q_bad, q_und = [], []
     o_bad, o_und, o_seen = [], [], []
     ret_bad, ret_und = [], []
-    def unescaped(codec, guessed, facts):
+    def unescaped(codec, guessed, facts, layers):
         """The bytes value reaches the literal as it is (`codec`: the identity decoding applied, None for none): the conditions of a
         path that skips the escaper must exclude the backslash byte - a printable ASCII character that starts an escape (or escapes
         the closing quote) when the literal is read back.  (The double quote is the business of the next obligation.)"""
         if guessed:
             esc_und.append("the bytes value reaches the literal without the repr-based escaper on a condition that is not understood")
+            return
+        own = [l for l in layers if not (l.tag == "rep" and (l.args[1], l.args[2]) in (('"', '\\"'), ("\\'", "'")))]
+        if own and (codec is not None or facts):
+            # rewrites other than the quote escape / the quote un-escape on top of the unescaped value: an escaper written by hand
+            esc_und.append(f"the bytes value is escaped by its own replacements instead of a known escaper ({_show(own[0])[-70:]}); not worked out")
             return
         adm = _admits_byte(facts, _BACKSLASH)
         real = [x for x in facts if x[0] != "ascii"]
@@ -1482,7 +1504,7 @@ def r1(ctx):
         mixed = ns is not None and bool(_peel(ns[2])[0])  # replacements *below* the slice: offsets depend on the data
         model = None  # the escaper whose output the replacements below are applied to, when it is a known one
         if _is_raw(x):
-            unescaped(None, guessed, facts)
+            unescaped(None, guessed, facts, layers)
         elif ns is None:
             esc_und.append(f"the slice applied to the escaped text is not a constant [a:-b] slice: {_show(x)}")
         else:
@@ -1506,7 +1528,7 @@ def r1(ctx):
                 else:
                     esc_und.append(f"argument of repr() is not <constant> + value: {_show(inner.args[0])}")
             elif _is_raw(inner) or _identity_decoding(inner) is not None:
-                unescaped(_identity_decoding(inner), guessed, facts)
+                unescaped(_identity_decoding(inner), guessed, facts, layers)
             elif _codec_escaper(inner) is not None:
                 status, info = _codec_escaper(inner)
                 if status == "ok" and (lo, hi) != (0, 0):
@@ -3175,13 +3197,17 @@ def run(ctx):
         "(repr() with the quote style pinned by a concatenated double quote and slice constants consistent with that pin, or the "
         "unicode_escape codec over a latin-1 decoding) and then the double-quote replacement; every other replacement applied to the "
         "escaped text is judged against the escaper's token structure (a pattern backslash + X, X emitted unescaped by that escaper, "
-        "can match the second half of an escaped backslash: violated). Decoder: the body of the decoding loop is walked once over an abstract iterator with symbolic characters; the "
+        "can match the second half of an escaped backslash: violated); a path on which the value skips the escaper (written as it is or only "
+        "decoded ascii / latin-1 / utf-8) must be taken only under conditions that exclude the backslash byte - the encoder's own tests "
+        "(`value.isascii()`, `.isprintable()`, `.isalnum()` ..., `<constant> in value`) are data forks whose outcomes are evaluated as "
+        "facts over the set of ASCII byte values a byte of the value may take (lemma L13), never by trying values. Decoder: the body of the decoding loop is walked once over an abstract iterator with symbolic characters; the "
         "cases are the literals / table keys the decoder itself compares a character with, plus one 'any other character' case in which "
         "the character stays symbolic (its code is the term ord(c)). On the resulting event traces: the set of escape letters the "
         "decoder acts on and their byte values are compared with the documented table (the 'other' case must drop the pair silently), "
         "hex escapes check availability before consuming (cursor-offset typestate), consume exactly their digits and append "
         "int(<low digit pair>, 16) - or the number parsed from all digits reduced by a constant mask / modulus that provably leaves "
-        "exactly the low byte (known-bits lemma L7) -, an ordinary character is appended as ord(c) exactly once (a constant mask is judged by a known-bits "
+        "exactly the low byte (known-bits lemma L7), or such a code encoded with latin-1 (lemma L12: chr(n).encode(C) is the one byte n for every "
+        "n in 0..255 only for latin-1; utf-8 / ascii give several bytes or raise from 0x80 on: violated) -, an ordinary character is appended as ord(c) exactly once (a constant mask is judged by a known-bits "
         "lemma over 0..255); a table of the module that converts the hex digits is folded and compared completely with the reference table "
         "of hex spellings (both cases; a missing spelling is a path on which a complete escape raises or yields the default, a complete "
         "correct table is int(<digits>, 16)); every escape letter the encoder can emit is one the decoder handles. Around the loop (R5): "
@@ -3199,6 +3225,12 @@ def run(ctx):
         "the 'exactly one token' claim over all inputs (regex matching semantics; only the structure of the pattern is checked)",
         "escapers other than repr() and the unicode_escape codec, replacements of patterns longer than backslash + one character, hex escapes "
         "reduced by anything but a constant & / % (reported as undecided)",
+        "encoder paths that skip the escaper on a condition other than the per-character predicates of lemma L13 / `<constant> in value` "
+        "(regular expressions, comprehensions over the bytes, comparisons: reported as undecided); predicates applied to the already escaped text; "
+        "a path that writes bytes other than the backslash and the double quote as they are (control characters, bytes >= 0x80) is accepted - "
+        "the STRING terminal matches every character (R4) and the decoder returns ord(c) & 0xFF for it",
+        "bytes appended through a codec other than latin-1 / utf-8 / ascii, with an explicit error handler, or for more than one character "
+        "(reported as undecided)",
         "decoders that carry state between characters, unroll nested loops, or hand the iterator to unmodelled code (reported as undecided)",
         "hex digits converted by anything but int(.., 16), a constant table / digit string of the module (one digit or a pair) or the nibble "
         "arithmetic of lemma L9; exceptions of operations kept symbolic (their handlers are not walked)",
@@ -3219,6 +3251,12 @@ def run(ctx):
         "unescaped), the backslash doubled, TAB/LF/CR as backslash + t/n/r, everything else as backslash + x + two hex digits; the output is ASCII",
         "lemma L2b: in the output of these escapers a backslash is always the first character of a token; str.replace scans left to right, so a pattern "
         "backslash + X with X a plain token matches inside backslash backslash X at the second backslash",
+        "lemma L13 (reference table): str/bytes .isascii() / .isprintable() / .isalnum() / .isalpha() / .isdigit() / .isdecimal() / .isnumeric() hold iff every "
+        "character satisfies the predicate (and the string is not empty, except isascii / isprintable); within ASCII these are 0x00-0x7f / 0x20-0x7e / "
+        "0-9A-Za-z / A-Za-z / 0-9 (bytes methods know ASCII only); decoding bytes as ascii / latin-1 / utf-8 maps every byte below 0x80 to the character "
+        "with the same code; `S in v` holds iff the constant S is a contiguous part of v",
+        "lemma L12: chr(n).encode('latin-1') is the single byte n for 0 <= n <= 255 and raises above; chr(n).encode('utf-8') / ('ascii') is the single byte n "
+        "only for n < 0x80 (utf-8: two to four bytes, ascii: UnicodeEncodeError from 0x80 on)",
         "lemma L3: ord and chr are inverse bijections (ord(c) == k <=> c == chr(k))",
         "lemma L4: a one-character string c is `in` a str s iff c is one of the characters of s; it equals no string of another length and no non-string",
         "lemma L5: for 0 <= x <= 255, x & K == x iff the low eight bits of K are all set, and x % K == x iff K > 255",
